@@ -41,7 +41,7 @@ Definition verdict (fx : fixes) (src : str) (d : document) : str * str :=
 
 Inductive c13_obs : Set :=
 | ObsReject (why : str)
-| ObsOk (tree : str) (text_rep verdict_rep text_cur verdict_cur : str).
+| ObsOk (tree : str) (text_rep verdict_rep text_cur verdict_cur : str) (kwc : bool).
 
 (** [cur]: the fixes the implementation under test has (determined by the check from three witness
     documents); the observation carries the printer's output and verdict under [repaired] and under [cur]. *)
@@ -51,6 +51,7 @@ Definition run_c13 (cur : fixes) (src : str) : c13_obs :=
       let '(t1, v1) := verdict repaired src d in
       let '(t0, v0) := verdict cur src d in
       ObsOk (tree_json d) t1 v1 t0 v0
+        (match print_pieces repaired src d with Some ps => kwcb ps | None => false end)
   | other => ObsReject (show_fail other)
   end.
 
